@@ -14,7 +14,7 @@ from lv import core, drive, plans, planprog
 from lv.props import common
 
 ID = 'C14'
-BUDGET = {'quick': 4800, 'thorough': 160000}     # cases, 1/20 of them domain B
+BUDGET = {'quick': 16000, 'thorough': 160000}     # cases, 1/20 of them domain B
 B_SHARE = 20
 WALL = {'quick': 900, 'thorough': 5400}
 RULE = ('A: random compile-shaped workflow plans (<= 10 actions in a random DAG with '
